@@ -44,9 +44,11 @@ def _worker(args):
     states, base, seed_ = args
     out = []
     for k, j in enumerate(states):
-        # the measures are defined for hypergraphs without repeated edges
-        if len({tuple(m) for m in j["e2n"]}) != len(j["e2n"]) or not j["nodes"]:
+        if not j["nodes"]:
             continue
+        # the exact formulas are stated for hypergraphs without repeated edges; range and the value on
+        # downward-closed hypergraphs for all of them
+        multi = len({tuple(m) for m in j["e2n"]}) != len(j["e2n"])
         rng = random.Random(seed_ * 982451653 + base + k)
         # orderable labels: all ints or all strings; also ints whose set iteration order is not ascending
         g = Gamma(*[("ints", "int"), ("str", "int"), ("descset", "int"), ("collide", "int")][(base + k) % 4])
@@ -55,7 +57,9 @@ def _worker(args):
         st, anom = hg.proj(H, g)
         o, errs = observe(H)
         out.append({"rid": f"s{base + k}", "what": f"shape {base + k} ({g.name}/{vname})", "st": st, "obs": o,
-                    "anom": sorted(set(anom + errs))})
+                    "multi": multi, "anom": sorted(set(anom + errs))})
+        if multi:
+            continue
         # the same object after a count-preserving rewiring (a cache keyed on counts would go stale)
         cand = [(e, n, m) for e in H.edges for n in H._edge[e] for m in H.nodes if m not in H._edge[e]]
         rng.shuffle(cand)
@@ -70,7 +74,7 @@ def _worker(args):
             st2, anom2 = hg.proj(K, g)
             o2, errs2 = observe(K, sizes=(ms0,))
             out.append({"rid": f"s{base + k}.rewired", "what": f"shape {base + k} rewired in place ({g.name}/{vname})", "st": st2,
-                        "obs": o2, "anom": sorted(set(anom2 + errs2))})
+                        "obs": o2, "multi": False, "anom": sorted(set(anom2 + errs2))})
             break
     return out
 
@@ -83,13 +87,28 @@ def run(tier, seed_):
     t = common.Timer()
     b = BUD[tier]
     shapes, mc = obscore.enumerate_shapes("MC_ShapesH", b["shapes"], max_states=None)
-    shapes = [j for j in shapes if len({tuple(m) for m in j["e2n"]}) == len(j["e2n"]) and j["nodes"]]
+    shapes = [j for j in shapes if j["nodes"]]
     rng = random.Random(seed_)
+
+    def closed(j):
+        es = {frozenset(m) for m in j["e2n"]}
+        return all(frozenset(c) in es for m in es for r_ in range(1, len(m)) for c in __import__("itertools").combinations(sorted(m), r_))
+
+    multi_ = [j for j in shapes if len({tuple(m) for m in j["e2n"]}) != len(j["e2n"])]
+    shapes = [j for j in shapes if len({tuple(m) for m in j["e2n"]}) == len(j["e2n"])]
     if len(shapes) > b["max_shapes"]:
-        # keep every downward closed one, sample the rest
         shapes = rng.sample(shapes, b["max_shapes"])
+    # with repeated edges: every downward closed one, and a sample of the rest
+    mc_ = [j for j in multi_ if closed(j)]
+    mo_ = [j for j in multi_ if not closed(j)]
+    shapes += mc_[: b["max_shapes"] // 3] + rng.sample(mo_, min(len(mo_), b["max_shapes"] // 6))
     # hand-made and random larger shapes: maximal edges overlapping in three or more nodes, nested families
-    extra_members = [[[0, 1, 2, 3], [0, 1, 2, 4], [0, 2], [1, 2]], [[0, 1, 2, 3], [0, 1, 2, 4], [0, 1, 2], [0, 1], [2]],
+    extra_members = [[[0, 1, 2, 3], [0, 1, 2, 4], [0, 1, 3, 4]], [[0, 1, 2, 3], [0, 1, 2, 4], [0, 1, 3, 4], [0, 2], [3]],
+                     [[0, 1, 2, 3, 4], [0, 1, 2, 3, 5], [0, 1, 2, 4, 5], [0, 1]], [[0, 1, 2, 3], [0, 1, 2, 4], [0, 1, 3, 4], [0, 2, 3, 4]],
+                     # downward closed, with interactions recorded more than once
+                     [[0, 1, 2], [0, 1], [0, 2], [1, 2], [0], [1], [2], [0, 1, 2]],
+                     [[0, 1], [0], [1], [0, 1], [1]],
+                     [[0, 1, 2, 3], [0, 1, 2, 4], [0, 2], [1, 2]], [[0, 1, 2, 3], [0, 1, 2, 4], [0, 1, 2], [0, 1], [2]],
                      [[0, 1, 2, 3, 4], [0, 1, 2, 5], [1, 2], [0, 2], [3, 4]], [[0, 1, 2], [1, 2, 3], [2, 3, 4], [1, 2], [2, 3]],
                      [[0, 1, 2, 3], [1, 2, 3], [0, 1, 2], [0, 1, 3], [0, 2, 3]]]
     for _ in range(12 if tier == "quick" else 400):
@@ -105,10 +124,10 @@ def run(tier, seed_):
     with ProcessPoolExecutor(max_workers=jobs) as ex:
         for part in ex.map(_worker, [(shapes[i::jobs], i * 100003, seed_) for i in range(jobs) if shapes[i::jobs]]):
             recs += part
-    log(f"[C15] {sum(len(r['obs']) for r in recs)} parameter settings on {len(recs)} hypergraphs without repeated edges ({t():.0f}s)")
+    log(f"[C15] {sum(len(r['obs']) for r in recs)} parameter settings on {len(recs)} hypergraphs ({sum(1 for r in recs if r['multi'])} with repeated edges) ({t():.0f}s)")
 
     def selftest(records, bad):
-        r0 = next(r for r in records if r["rid"] not in bad and any(e["sed"][1] != 0 and e["sed"][0] > 0 for e in r["obs"]))
+        r0 = next(r for r in records if r["rid"] not in bad and not r["multi"] and any(e["sed"][1] != 0 and e["sed"][0] > 0 for e in r["obs"]))
         m = json.loads(json.dumps(r0))
         m["rid"] = "selftest"
         e = next(e for e in m["obs"] if e["sed"][1] != 0 and e["sed"][0] > 0 and not e["norm"])
